@@ -662,6 +662,36 @@ pub fn sample_one<S: Strategy>(s: &S, runner: &mut TestRunner) -> S::Value {
 // ---------------------------------------------------------------------------------------------
 // libFuzzer campaigns (thorough tier): cargo-fuzz targets under /verif/harness/fuzz
 // ---------------------------------------------------------------------------------------------
+/// Run a child process to its end while keeping the stall watchdog informed (a campaign or a cold `cargo fuzz build` on a
+/// loaded machine takes longer than the stall budget); `cap_s` bounds the child, which is killed beyond it (-> None).
+fn run_child(mut cmd: std::process::Command, cap_s: u64) -> Option<std::process::Output> {
+    use std::io::Read;
+    let mut child = cmd.stdout(std::process::Stdio::null()).stderr(std::process::Stdio::piped()).spawn().ok()?;
+    let mut stderr = child.stderr.take()?;
+    let reader = std::thread::spawn(move || {
+        let mut buf = Vec::new();
+        let _ = stderr.read_to_end(&mut buf);
+        buf
+    });
+    let t0 = Instant::now();
+    let status = loop {
+        watchdog_touch();
+        match child.try_wait() {
+            Ok(Some(st)) => break Some(st),
+            Ok(None) => {}
+            Err(_) => break None,
+        }
+        if t0.elapsed().as_secs() > cap_s {
+            let _ = child.kill();
+            let _ = child.wait();
+            break None;
+        }
+        std::thread::sleep(std::time::Duration::from_millis(500));
+    };
+    let err = reader.join().unwrap_or_default();
+    status.map(|st| std::process::Output { status: st, stdout: vec![], stderr: err })
+}
+
 impl Ctx {
     /// Run one coverage-guided campaign. A crash (the target's in-process oracle panicked) is a violation whose
     /// replay file is libFuzzer's artifact; hitting the time cap before `runs` executions is recorded as an
@@ -682,9 +712,10 @@ impl Ctx {
             let _ = std::fs::write(format!("{corpus}/seed-{i:04}"), s);
         }
         let mut st = Stats::new();
-        let build = std::process::Command::new("cargo").args(["+nightly", "fuzz", "build", target]).current_dir(&fuzz_dir).env("CARGO_NET_OFFLINE", "true").output();
-        match build {
-            Ok(o) if o.status.success() => {}
+        let mut bcmd = std::process::Command::new("cargo");
+        bcmd.args(["+nightly", "fuzz", "build", target]).current_dir(&fuzz_dir).env("CARGO_NET_OFFLINE", "true");
+        match run_child(bcmd, 3600) {
+            Some(o) if o.status.success() => {}
             other => {
                 eprintln!("[{}] cargo fuzz build {target} failed: {:?}", self.id, other.map(|o| String::from_utf8_lossy(&o.stderr).chars().rev().take(600).collect::<String>().chars().rev().collect::<String>()));
                 st.class("ABORT:cargo-fuzz-build-failed");
@@ -693,22 +724,21 @@ impl Ctx {
             }
         }
         let seed = if self.seed == 0 { 1 } else { self.seed & 0x7fff_ffff };
-        let out = std::process::Command::new("cargo")
-            .args(["+nightly", "fuzz", "run", target, &corpus, "--"])
+        let mut rcmd = std::process::Command::new("cargo");
+        rcmd.args(["+nightly", "fuzz", "run", target, &corpus, "--"])
             .arg(format!("-runs={runs}"))
             .arg(format!("-seed={seed}"))
             .arg(format!("-max_total_time={max_time_s}"))
             .args(["-len_control=0", "-max_len=4096", "-print_final_stats=1", "-timeout=25"])
             .arg(format!("-artifact_prefix={artifacts}"))
             .current_dir(&fuzz_dir)
-            .env("CARGO_NET_OFFLINE", "true")
-            .output();
-        let out = match out {
-            Ok(o) => o,
-            Err(e) => {
-                eprintln!("[{}] cannot run cargo fuzz: {e}", self.id);
-                st.class("ABORT:cargo-fuzz-run-failed");
-                self.push(&name, "libFuzzer campaign (could not start)", false, st, t0);
+            .env("CARGO_NET_OFFLINE", "true");
+        let out = match run_child(rcmd, max_time_s + 900) {
+            Some(o) => o,
+            None => {
+                eprintln!("[{}] cargo fuzz run {target}: could not start or exceeded its wall-clock cap (inconclusive)", self.id);
+                st.class("INCONCLUSIVE:cargo-fuzz-run-did-not-finish");
+                self.push(&name, "libFuzzer campaign (did not finish)", false, st, t0);
                 return;
             }
         };
